@@ -47,8 +47,8 @@ function p.%(fn)s(frame)
 end
 """
 
-W1 = "<{{#invoke:{{{m}}}|{{{f}}}|{{{1}}}|x={{{x}}}}}>"
-W2 = "{{W1|{{{1}}}|x={{{x}}}|m={{{m}}}|f={{{f}}}}}"
+W1 = "<{{#invoke:{{{m}}}|{{{f}}}|{{{1}}}|x={{{x}}}|2={{{2}}}}}>"
+W2 = "{{W1|{{{1}}}|x={{{x}}}|2={{{2}}}|m={{{m}}}|f={{{f}}}}}"
 
 
 def key_of(atoms):
@@ -95,11 +95,11 @@ def chunk_fn(chunk):
             ctx.add_page("Template:W2", 10, body=W2)
             ctx.db_conn.commit()
             for idx, c in chunk:
-                a1, a2 = tr.render(c["a1"]), tr.render(c["a2"])
+                a1, a2, a3 = tr.render(c["a1"]), tr.render(c["a2"]), tr.render(c["a3"])
                 if c["depth"] == 0:
-                    page = f"{{{{#invoke:M|f{idx}|{a1}|x={a2}}}}}"
+                    page = f"{{{{#invoke:M|f{idx}|{a1}|x={a2}|2={a3}}}}}"
                 else:
-                    page = f"{{{{W{c['depth']}|{a1}|x={a2}|m=M|f=f{idx}}}}}"
+                    page = f"{{{{W{c['depth']}|{a1}|x={a2}|2={a3}|m=M|f=f{idx}}}}}"
                 ob = {"idx": idx, "page": page}
                 try:
                     ctx.start_page("Pg")
